@@ -43,6 +43,10 @@ def _gen_lockstep(rng, seed):
         else:
             a, b = rng.sample(vs, 2)
             goals.append([[a, 1], [b, rng.choice([1, 2])]])
+    mode = "action" if goals and rng.random() < 0.25 else "simulate"
+    if mode == "action" and rng.random() < 0.5:
+        # tail probabilities through the CLI action: P(v >= a) <= ?  /  P(v > a) >= ?
+        goals.insert(rng.randrange(len(goals) + 1), {"tail": [rng.choice(vs), rng.choice([">=", ">"]), rng.choice(["0", "1", "2", "1/2", "-1"])]})
     return {
         "kind": "lockstep",
         "prog": prog,
@@ -51,7 +55,7 @@ def _gen_lockstep(rng, seed):
         "goals": goals,
         "seed": seed,
         "policy": rng.choice(["uniform", "coverage", "adversarial", "mixed", "mixed"]),
-        "mode": "action" if goals and rng.random() < 0.25 else "simulate",
+        "mode": mode,
         "style": rng.choice(["frac", "frac", "decimal"]),
         "explicit_last": rng.random() < 0.5,
     }
